@@ -39,6 +39,31 @@ def interval_ranges(sp, size):
     return out
 
 
+def typical_day_specs(seed, n, tag):
+    """the same price profile in every interval (typical-day prices), no discounting, equal capacities - only the volume limits of a
+    contract differ from interval to interval"""
+    import pandas as pd
+    out = []
+    for i in range(n):
+        rng = random.Random('%s/%s/%d' % (seed, tag, i))
+        m, k = rng.choice([3, 4]), rng.choice([2, 3])
+        T = m * k
+        g = {'start': '2022-05-02 00:00', 'freq': 'h', 'unit': 'h', 'tz': None, 'T': T}
+        g['end'] = (pd.Timestamp(g['start']) + pd.Timedelta(hours=T)).strftime('%Y-%m-%d %H:%M')
+        prof = [gen.k8(rng, 1, 9) for _ in range(m)]
+        prices = {'p0': prof * k, 'p1': [v + 1.0 for v in prof] * k}
+        pts = [pd.Timestamp(g['start']) + pd.Timedelta(hours=m * j) for j in range(k + 1)]
+        vals = rng.sample([2.0, 3.5, 5.0, 6.5, 8.0], k)
+        assets = [{'kind': 'SimpleContract', 'name': 'mkt', 'nodes': ['N0'], 'price': 'p0', 'min_cap': -30.0, 'max_cap': 30.0},
+                  {'kind': 'Contract', 'name': 'supply', 'nodes': ['N0'], 'price': None, 'min_cap': 0.0, 'max_cap': 4.0,
+                   'max_take': {'start': [gen.fmt(t) for t in pts[:-1]], 'end': [gen.fmt(t) for t in pts[1:]], 'values': vals}}]
+        if rng.random() < 0.5:
+            assets[1]['price'] = 'p1'
+            assets[1]['min_take'] = {'start': [gen.fmt(t) for t in pts[:-1]], 'end': [gen.fmt(t) for t in pts[1:]], 'values': [v / 2 for v in vals]}
+        out.append({'grid': g, 'prices': prices, 'assets': assets, 'opts': {'split': '%dh' % m}, 'id': '%s%d' % (tag, i), 'seed': '%s/%s/%d' % (seed, tag, i)})
+    return out
+
+
 def run(ctx):
     if not ctx.proof_gate(THEOREMS, ['Split.vo', 'Build.vo']):
         return
@@ -81,6 +106,13 @@ def run(ctx):
         for sp in co:
             sp['opts']['split'] = '12h'
         specs += co
+    specs += typical_day_specs(ctx.seed, 10 if ctx.tier == 'quick' else 60, 'c14td_')
+    # rolling use: the same portfolio object was set up on the neighbouring horizon before the split set-up
+    roll = gen.gen_many(ctx.seed, n // 4, dict(CFG, tzs=[None], p_unaligned_end=0.0, freqs=['h']), 'c14roll_')
+    for k_, sp in enumerate(roll):
+        sp['opts']['split'] = '3h'
+        sp['opts']['split_warmup_shift'] = 1 if k_ % 2 else -1
+    specs += roll
     specs = ctx.specs(specs)
     res = C.run_impl('portfolio', specs)
     exprs, owners = [], []
@@ -130,6 +162,10 @@ def run(ctx):
         if rows_of(s['mapping']) != rows_of(o['problem']['mapping']):
             a_, b_ = rows_of(s['mapping']), rows_of(o['problem']['mapping'])
             bad['(asset, node, step) with dispatch differ from the unsplit problem'] = {'only split': [r for r in a_ if r not in b_][:4], 'only unsplit': [r for r in b_ if r not in a_][:4]}
+        # ---- the decoded tables are labelled with the time points of the grid of the split problem
+        idx = (s.get('out') or {}).get('dispatch_index')
+        if idx is not None and idx != M.grid_pts(sp['grid'])[:-1]:
+            bad['rows of the dispatch table are not labelled with the time points of the grid'] = [idx[:3], M.grid_pts(sp['grid'])[:3]]
         # ---- value = sum of interval optima
         if s.get('solve') == 'optimal':
             iv = s.get('interval_values') or []
